@@ -194,20 +194,26 @@ func genQuery(r *rng.R, s *spec.Spec) selQuery {
 	for i, p := range q.Patterns { // "///..." is not a documented spelling of the root package
 		q.Patterns[i] = strings.Replace(p, "///...", "//...", 1)
 	}
-	if r.Chance(1, 4) {
-		q.Tags = []string{rng.Pick(r, []string{"fast", "slow", "ci"})}
+	all := []string{"fast", "slow", "ci"}
+	if r.Chance(1, 3) {
+		rng.Shuffle(r, all)
+		q.Tags = append([]string{}, all[:r.Range(1, 2)]...)
 	}
-	if r.Chance(1, 5) {
-		ex := rng.Pick(r, []string{"fast", "slow", "ci"})
-		if !anyIn(q.Tags, []string{ex}) {
-			q.ExcludeTags = []string{ex}
+	if r.Chance(1, 3) {
+		rng.Shuffle(r, all)
+		for _, ex := range all[:r.Range(1, 3)] {
+			if !anyIn(q.Tags, []string{ex}) {
+				q.ExcludeTags = append(q.ExcludeTags, ex)
+			}
 		}
 	}
-	switch r.Intn(6) {
+	switch r.Intn(8) {
 	case 0:
 		q.Platform = "darwin/arm64"
 	case 1:
 		q.AllPlat = true
+	case 2:
+		q.Platform = rng.Pick(r, []string{"darwin/amd64", "linux/arm64", "windows/arm64", "linux/amd64"})
 	}
 	return q
 }
@@ -224,7 +230,7 @@ func RunC12(tier string) int {
 		return run.Finish()
 	}
 	defer st.Cleanup()
-	n := tierN(tier, 150, 3000)
+	n := tierN(tier, 500, 6000)
 	e1.Parallel(n, func(i int) {
 		r := rng.Derive(uint64(run.Seed), "C12", fmt.Sprint(i))
 		pf := spec.DefaultProfile()
